@@ -468,6 +468,18 @@ class Evaluator:
             self.events = saved
             self._frames.pop()
 
+    def call_term(self, fterm: T, args, state: State, module: str, cls_ctx=None, self_term=None) -> T:
+        """Apply a callable term (closure / lambda / bound method / function) to argument terms."""
+        fi = FunctionInfo(f"{module}:<spec>", module, "<spec>", "<spec>", ast.parse("def f(): pass").body[0], None)
+        self._frames.append((fi, cls_ctx, None, self_term))
+        saved, self.events = self.events, []
+        try:
+            node = ast.parse("f()").body[0].value
+            return self._call(fterm, list(args), [], state, node)
+        finally:
+            self.events = saved
+            self._frames.pop()
+
     # ---------------------------------------------------------------- helpers
     def _fresh(self, tag):
         self._uid += 1
